@@ -41,6 +41,13 @@ CHECKS["C11"] = ("exploration",
     "numerically with PolynomialFeatures on 8 input classes.",
     "DESIGN.md §3 C11")
 
+CHECKS["C14"] = ("exploration",
+    "runtime differential monitor: scikit-learn's CountVectorizer/TfidfVectorizer with the same options as "
+    "oracle for matrices (fit_transform, transform on another corpus), vocabulary_ via ' '.join(tuple), refusals",
+    "Generated corpora (empty / one-token / shorter-than-n / repeated / stop-word / mixed-case documents) under "
+    "generated option sets; every matrix cell and every vocabulary entry compared with the parent class.",
+    "DESIGN.md §3 C14")
+
 PENDING = {}
 
 
